@@ -15,7 +15,7 @@ EXTENDS Integers, Sequences, FiniteSets, TLC
 
 Renderings == {"go", "go-compiled-twice", "go-recompiled-forced", "json", "yaml", "go-json-patterns",
                "go-json-patterns-compiled-twice", "go-json-patterns-parsed-then-compiled", "go-json-patterns-compile-retry", "json-json-patterns", "compiled-serialised-reloaded",
-               "json-patterns-compiled-serialised-reloaded", "sio-inline", "sio-file-json", "sio-file-yaml", "sio-file-json-after-whitespace", "mcrew-getspec", "msimple-file-yaml"}
+               "json-patterns-compiled-serialised-reloaded", "sio-inline", "sio-file-json", "sio-file-yaml", "sio-file-json-after-whitespace", "mcrew-getspec", "msimple-file-yaml", "go-typed-patterns", "go-json-syntax-typed-and-text"}
 
 Ref(reps) == reps[CHOOSE i \in DOMAIN reps : reps[i].repr = "go"]
 
